@@ -811,6 +811,17 @@ pub fn generate(family: &str, seed: u64, count: usize, emit: &mut dyn FnMut(Stri
             }
         }
         "malformed" => {
+            // a literal NUL byte where the readers look one byte ahead (`peek_or_null` answers 0 at the end of the
+            // input AND for a NUL byte): after the dot of a list, after a sign, inside and after tokens — through the
+            // value and the datum API, every source
+            for text in [&b"first (a .\0 b) last"[..], b"(a .\0)", b"(.\0 b)", b"(a . \0 b)", b"#(a .\0 b)", b"[a .\0 b] c", b"(a .\0 . b)", b"((x .\0 y)) z",
+                         b"\0", b"a\0b c", b"(\0) d", b"+\0 e", b"-\0", b"1\0 2", b"1.\0 2", b"1e\0 2", b"#\0 f", b"#t\0 g", b"\"\0\" h", b"#\\\0 i", b"'\0 j", b",@\0 k", b"(a b .\0", b"#u8(1\0 2)"] {
+                for ro in [R_DEFAULT, R_ELISP, "1110011111", "0101100010"] {
+                    for api in ["r:v:6", "r:d:6", "r:i:6", "r:j:6", "h:dvdvdv", "h:vdvdvd", "v1", "d1"] {
+                        for src in ["b", "i1", "s"] { emit(parse_op(src, ro, api, text)); }
+                    }
+                }
+            }
             let mut prev: Vec<u8> = b"(a b)".to_vec();
             for _ in 0..count {
                 let raw = r.chance(1, 2);
